@@ -83,9 +83,9 @@ ADDED = {
     "C05": ("", " Subgroup covers from long multi-generator subgroups of large finite Coxeter groups; sheet bounds up to 8-9 on small oriented symbols.", ""),
     "C06": ("", " Quick tier brute-forces (2,11), (3,10), (4,7) as well.", ""),
     "C07": ("", " Plus structured sets: flag systems of the tetrahedron, cube, dodecahedron, hemi-cube, hemi-dodecahedron, tori (24-120 chambers).", ""),
-    "C08": ("", " Branching numbers 10-12 and at the 2^8..2^53 boundaries; every representation judged.", ""),
+    "C08": ("", " Branching numbers 10-12 and at the 2^8..2^53 boundaries; every representation judged; on orientable orbifolds all boundary components are read with one global orientation (model) and compared up to simultaneous reversal; identical text demanded when no component is chiral.", ""),
     "C09": ("", " Every 3D D-set with 6-8 chambers from the library's generator (validated by the model) with all admissible branchings.", ""),
-    "C10": ("", " Histories with letter 0, offsets in -3len..3len, words up to 3000 letters, all four operand forms.", ""),
+    "C10": ("", " Histories with letter 0, offsets in -3len..3len, words up to 3000 letters, all four operand forms, construction from lazy iterators that themselves perform free-word operations.", ""),
     "C11": ("; Miri and ASan lanes for coset_table -> IntPartition",
             " Hostile families: presentation + killing relator (whole-table collapse in one scan), redundant generators, long multi-generator subgroups, empty words.", ""),
     "C12": ("", " Presentations with a redundant third generator, cyclic groups with a trivial generator, rotation subgroups up to index 8-9.", ""),
